@@ -108,6 +108,47 @@ EXT_CONSUMERS = {'Encoder.encode': [0], 'NeverIndexedHeaderTuple.__init__':
                  [], 'MutableMapping.update': [0]}
 
 
+def _guarded_not_none(node, name):
+    """node sits where NAME is known not to be None: the body of `if NAME
+    is not None:` / `if NAME:`, the else branch of `if NAME is None:` (the
+    statement or the conditional expression), or after `NAME and`."""
+    def test_says(t):
+        """True: t holds => not None; False: t holds => None; else None"""
+        if isinstance(t, ast.Name) and t.id == name:
+            return True
+        if isinstance(t, ast.UnaryOp) and isinstance(t.op, ast.Not):
+            r = test_says(t.operand)
+            return None if r is None else not r
+        if isinstance(t, ast.Compare) and len(t.ops) == 1 and \
+                isinstance(t.left, ast.Name) and t.left.id == name and \
+                isinstance(t.comparators[0], ast.Constant) and \
+                t.comparators[0].value is None:
+            if isinstance(t.ops[0], ast.IsNot):
+                return True
+            if isinstance(t.ops[0], ast.Is):
+                return False
+        return None
+    child, par = node, getattr(node, '_parent', None)
+    while par is not None and not isinstance(
+            par, (ast.FunctionDef, ast.AsyncFunctionDef, ast.Lambda)):
+        if isinstance(par, ast.If):
+            s = test_says(par.test)
+            if (s is True and child in par.body) or \
+                    (s is False and child in par.orelse):
+                return True
+        elif isinstance(par, ast.IfExp):
+            s = test_says(par.test)
+            if (s is True and child is par.body) or \
+                    (s is False and child is par.orelse):
+                return True
+        elif isinstance(par, ast.BoolOp) and isinstance(par.op, ast.And):
+            i = par.values.index(child) if child in par.values else 0
+            if any(test_says(v) is True for v in par.values[:i]):
+                return True
+        child, par = par, getattr(par, '_parent', None)
+    return False
+
+
 class PartialOp:
     """A partial operation that is an obligation (kind, node, exception)."""
     __slots__ = ('kind', 'node', 'exc', 'fi', 'desc')
@@ -701,6 +742,12 @@ class Raises:
                 self._ext(fi, call, tg.name, frames, out)
             elif tg.kind == 'method':
                 self._method(fi, call, tg.name, frames, out)
+            elif tg.kind == 'none':
+                # the callee can only be None: dead under `if x is not
+                # None` / `if x`, a TypeError otherwise
+                if not _guarded_not_none(call, tg.name):
+                    self._op(fi, call, 'call of None', 'TypeError', frames,
+                             out)
             elif tg.kind == 'unknown':
                 self.unsummarised.append((fi.qual, unparse(call.func)))
 
